@@ -247,9 +247,27 @@ pub struct SubFileSizes {
 
 impl SubFileSizes {
     /// Calculate the valid value of lf, given all of the other fields.
+    ///
+    /// The sum of eleven 16-bit numbers does not always fit in 16 bits;
+    /// in that case `i16::MAX` is returned.
     pub fn valid_lf(&self) -> i16 {
+        self.valid_lf_wide().try_into().unwrap_or(i16::MAX)
+    }
+
+    /// Same as [`SubFileSizes::valid_lf`], calculated in 32 bits as in TFtoPL.2014.21.
+    fn valid_lf_wide(&self) -> i32 {
         let s = self;
-        6 + s.lh + (s.ec - s.bc + 1) + s.nw + s.nh + s.nd + s.ni + s.nl + s.nk + s.ne + s.np
+        let w = |n: i16| n as i32;
+        6 + w(s.lh)
+            + (w(s.ec) - w(s.bc) + 1)
+            + w(s.nw)
+            + w(s.nh)
+            + w(s.nd)
+            + w(s.ni)
+            + w(s.nl)
+            + w(s.nk)
+            + w(s.ne)
+            + w(s.np)
     }
 }
 
@@ -444,7 +462,7 @@ impl<'a> RawFile<'a> {
                 warnings,
             );
         }
-        if s.lf != s.valid_lf() {
+        if (s.lf as i32) != s.valid_lf_wide() {
             return (
                 Err(DeserializationError::InconsistentSubFileSizes(s.clone())),
                 warnings,
